@@ -1,8 +1,10 @@
 """Deterministic simulation of the real `EngineRunner` (openpectus/engine/engine_runner.py) for C27 / model M12.
 
 The real runner runs, unmodified, on a virtual-time asyncio loop with
-  * the real `EngineDispatcher.send_async` / `assign_sequence_number` (`SimDispatcher` only replaces the
-    connection set-up and the websocket RPC client underneath: `_rpc_client.other.dispatch_message_async`
+  * the real `EngineDispatcher`: `connect_async`, `_register_for_engine_id_async`, `send_registration_msg_async`,
+    `disconnect_async`, `send_async`, `assign_sequence_number` all run; only what is underneath them is simulated:
+    `httpx.AsyncClient.post` (registration; a re-registration happens after every failure because the runner
+    clears `_engine_id`) and `WebSocketRpcClient` (`__aenter__`/`__aexit__`, `other.dispatch_message_async`
     raises RpcChannelClosedException / ConnectionClosedError or answers an RpcResponse); the sequence number
     of every attempt is read from the serialized message on the wire; outcomes and latencies are dictated by a choice
     sequence; the transport is an ordered channel like the production websocket RPC (requests are
@@ -238,12 +240,18 @@ class Sim:
             @staticmethod
             def uniform(a, b):
                 return (0.5, 5.5)[sim.ch.pick("wait", 2)]
-        old_random = ER.random
+        import openpectus.protocol.engine_dispatcher as ED
+        if "d" not in _cls_cache:
+            _cls_cache["d"] = _dispatcher_class()
+        dcls = _cls_cache["d"]
+        old_random, old_ws, old_httpx = ER.random, ED.WebSocketRpcClient, ED.httpx
         ER.random = _Rnd  # reconnect wait is dictated by the schedule
+        ED.WebSocketRpcClient = dcls._fake_ws       # the websocket underneath the real connect_async / send_async
+        ED.httpx = dcls._fake_httpx                 # the HTTP POST underneath the real registration
         try:
             loop.run_until_complete(self._main())
         finally:
-            ER.random = old_random
+            ER.random, ED.WebSocketRpcClient, ED.httpx = old_random, old_ws, old_httpx
             try:
                 pend = [t for t in asyncio.all_tasks(loop) if not t.done()]
                 for t in pend:
@@ -262,6 +270,7 @@ class Sim:
         loop = self.loop
         builder = SimBuilder(self)
         self.disp = SimDispatcher(self, builder)
+        type(self.disp)._fake_http_client.disp = self.disp
         emitter = _Emitter()
         self.runner = make_runner(self, self.disp, builder, emitter, loop)
 
@@ -416,6 +425,11 @@ class SimBuilder:
     def _run_of(self, run_id) -> int:
         return int(run_id[3:]) if run_id else 0
 
+    def create_register_engine_msg(self, uod_name, uod_author_name, uod_author_email, uod_filename, location):
+        return self.EM.RegisterEngineMsg(uod_name=uod_name, uod_author_name=uod_author_name,
+                                         uod_author_email=uod_author_email, uod_filename=uod_filename,
+                                         location=location, secret="", engine_version="sim", computer_name="sim")
+
     def create_uod_info(self):
         EM, Mdl = self.EM, self.Mdl
         m = EM.UodInfoMsg(readings=[], commands=[],
@@ -485,6 +499,8 @@ def _dispatcher_class():
     from websockets.exceptions import ConnectionClosedError
     import json
 
+    import openpectus.protocol.aggregator_messages as AM
+
     class _Other:
         def __init__(self, disp):
             self._disp = disp
@@ -492,9 +508,58 @@ def _dispatcher_class():
         async def dispatch_message_async(self, message_json: dict):
             return await self._disp._wire_call(message_json)
 
-    class _Rpc:
-        def __init__(self, disp):
-            self.other = _Other(disp)
+    class _Ws:
+        """Stands for fastapi_websocket_rpc.WebSocketRpcClient as engine_dispatcher uses it."""
+
+        def __init__(self, uri=None, methods=None, **kw):
+            self._disp = methods.disp
+            self.other = _Other(self._disp)
+
+        async def __aenter__(self):
+            disp = self._disp
+            fail = disp._connect_choice()
+            await asyncio.sleep(0.02)
+            if fail:
+                raise ConnectionRefusedError("sim websocket refused")
+            disp.broken = False
+            disp.sim.log("C1")
+            return self
+
+        async def __aexit__(self, *a):
+            self._disp._channel_closed()
+
+    class _Response:
+        def __init__(self, obj):
+            self.status_code = 200
+            self._obj = obj
+
+        def json(self):
+            return self._obj
+
+    class _HttpClient:
+        """Stands for httpx.AsyncClient in send_registration_msg_async."""
+        disp = None
+
+        def __init__(self, **kw):
+            pass
+
+        async def __aenter__(self):
+            return self
+
+        async def __aexit__(self, *a):
+            return False
+
+        async def post(self, url=None, json=None, headers=None):
+            disp = _HttpClient.disp
+            # a failing connect attempt fails here every other time (when a registration is needed at all)
+            if disp._connect_choice() and disp._conn_fail_no % 2 == 0:
+                raise OSError("sim registration post failed")
+            disp.registrations += 1
+            return _Response(serialize(AM.RegisterEngineReplyMsg(success=True, engine_id="E", secret_match=True,
+                                                                 version_match=True)))
+
+    class _Httpx:
+        AsyncClient = _HttpClient
 
     class SimDispatcher(EngineDispatcher):
         """The real dispatcher (`send_async`, `assign_sequence_number`) over a simulated websocket RPC client:
@@ -508,25 +573,42 @@ def _dispatcher_class():
             self.queue: list[dict] = []
             self.broken = True        # no connection yet
             self._pump_handle = None
+            self._conn_decided = None
+            self._conn_fail_no = 0
+            self.registrations = 0
+
+        # connect_async / _register_for_engine_id_async / send_registration_msg_async / disconnect_async are the
+        # REAL methods.  Underneath them `httpx.AsyncClient` (registration POST) and `WebSocketRpcClient`
+        # (websocket) of the engine_dispatcher module are replaced by `_HttpClient` / `_Ws` while a run lasts.
+        def _connect_choice(self) -> bool:
+            """one choice per connect attempt: fail it?  (alternately at the registration POST, when there is one,
+            and at the websocket hand-shake)"""
+            sim = self.sim
+            if self._conn_decided is None:
+                self._conn_decided = sim.faults_allowed() and sim.ch.pick("conn", 2) == 1
+                if self._conn_decided:
+                    sim.faults += 1
+                    self._conn_fail_no += 1
+            return self._conn_decided
 
         async def connect_async(self):
-            sim = self.sim
-            fail = sim.faults_allowed() and sim.ch.pick("conn", 2) == 1
-            await asyncio.sleep(0.02)
-            if fail:
-                sim.faults += 1
-                sim.log("C0")
-                raise ProtocolNetworkException("sim connect failed")
-            if self._engine_id is None:
-                self._engine_id = "E"
-            self._rpc_client = _Rpc(self)  # type: ignore
-            self.broken = False
-            sim.log("C1")
+            self._conn_decided = None
+            try:
+                return await super().connect_async()
+            except BaseException:
+                if self._conn_decided:
+                    self.sim.log("C0")
+                raise
+            finally:
+                self._conn_decided = None
 
         async def disconnect_async(self):
+            self.sim.log("D")          # `disconnect_async` called (the real one closes the client if there is one)
+            self.broken = True
+            return await super().disconnect_async()
+
+        def _channel_closed(self):
             sim = self.sim
-            sim.log("D")
-            self._rpc_client = None
             self.broken = True
             # closing the channel fails every pending call, in order
             for e in self.queue:
@@ -628,6 +710,9 @@ def _dispatcher_class():
                     e["fut"].set_result(ok)
             self._arm()
 
+    SimDispatcher._fake_ws = _Ws
+    SimDispatcher._fake_httpx = _Httpx
+    SimDispatcher._fake_http_client = _HttpClient
     return SimDispatcher
 
 
